@@ -6,8 +6,11 @@
 From Robsd Require Import Conf.ConfSpec Conf.ConfSound Conf.ConfInv Conf.ConfComplete Conf.ConfDiag.
 Local Open Scope N_scope.
 
+Section Good.
+Variable T : tables.
+
 Definition errd (d : diag) : Prop :=
-  is_lexer_msg (d_msg d) = true \/ (d_path d = P_none /\ exists e, d_msg d = M_interp e).
+  is_lexer_msg (d_msg d) = true \/ (d_path d = ipath T /\ exists e, d_msg d = M_interp e).
 
 Definition good (c : cfg) : Prop := exists d, In d (c_diags c) /\ errd d.
 
@@ -19,7 +22,7 @@ Lemma good_new c d : errd d -> good (add_diag c d).
 Proof. intros He. exists d. split; [left; reflexivity|exact He]. Qed.
 Lemma good_lexerr c lno m : is_lexer_msg m = true -> good (add_diag c (lexerr lno m)).
 Proof. intros H. apply good_new. left. exact H. Qed.
-Lemma good_interp c lno e : good (add_diag c (mk_diag P_none lno (M_interp e))).
+Lemma good_interp c lno e : good (add_diag c (mk_diag (ipath T) lno (M_interp e))).
 Proof. apply good_new. right. split; [reflexivity|exists e; reflexivity]. Qed.
 
 Definition noempty (ts : list token) : Prop :=
@@ -32,7 +35,6 @@ Definition failed (rv : prv) : Prop := match rv with R_error | R_fatal => True |
 
 Section Fail.
   Variable E : env.
-  Variable T : tables.
   Variable eof : Z.
 
   Lemma f_expect c ts ty c1 r : expect eof c ts ty = (c1, r, None) -> good c1.
@@ -232,6 +234,7 @@ Proof.
   unfold lexer_get_error. intros H. apply existsb_exists in H. destruct H as [d [Hin Hd]].
   exists d. split; [exact Hin|left; exact Hd].
 Qed.
+End Good.
 
 (* ---------------------------------------------------------------- the lexer: fuel and empty strings *)
 Lemma skip_ws_len s : forall lno, (length (snd (skip_ws lno s)) <= length s)%nat.
@@ -329,7 +332,7 @@ Qed.
 
 (* ---------------------------------------------------------------- every rejection has its diagnostic *)
 Theorem reject_good E T text c :
-  wf_tokens T = true -> config_parse E T text = Rejected c -> good c.
+  wf_tokens T = true -> config_parse E T text = Rejected c -> good T c.
 Proof.
   intros Hwf. unfold config_parse.
   pose proof (lex_go_diags (S (length text)) T 1%Z text [] [] (Forall_nil _)) as Hd. fold (lex T text) in Hd.
@@ -386,11 +389,11 @@ Qed.
 
 (* a diagnostic that names the configuration file, or the path-less one of interpolate.c *)
 Definition names_file (d : diag) : Prop := is_lexer_msg (d_msg d) = true /\ d_path d = P_conf.
-Definition pathless_interp (d : diag) : Prop := d_path d = P_none /\ exists e, d_msg d = M_interp e.
+Definition interp_diag (T : tables) (d : diag) : Prop := d_path d = ipath T /\ exists e, d_msg d = M_interp e.
 
 Theorem reject_diagnostic E T text c :
   wf_tokens T = true -> config_parse E T text = Rejected c ->
-  exists d, In d (c_diags c) /\ (names_file d \/ pathless_interp d).
+  exists d, In d (c_diags c) /\ (names_file d \/ interp_diag T d).
 Proof.
   intros Hwf H. destruct (reject_good E T text c Hwf H) as [d [Hin [Hl|Hi]]].
   - exists d. split; [exact Hin|]. left. split; [exact Hl|].
